@@ -3,8 +3,9 @@ import re
 from tools import common as C, wire, oracle as O
 from tools.gen import lines as L, corpus
 
-LEAN_MODULES = ["SCP.C08", "SCP.C08Code"]
-THEOREMS = ["SCP.C08." + t for t in "strReplace_single read_write read_write_no_thousands read_same_number calc_ignores_separators".split()] + \
+LEAN_MODULES = ["SCP.C08", "SCP.C08Code", "SCP.Setters"]
+THEOREMS = ["SCP.Setters." + t for t in "dec_thou_comm setThousand_writes setDecimal_writes run_dec run_thou run_same_last".split()] + \
+    ["SCP.C08." + t for t in "strReplace_single read_write read_write_no_thousands read_same_number calc_ignores_separators".split()] + \
     ["SCP.C08Code." + t for t in "readLiteral_comma codeLex_comma executeCode_comma executeCode_sep calculateUnitWith_congr calculateUnit_sep convertUnitWith_congr convertUnit_sep exec_sep".split()]
 RULE = ("every evaluable line of the shared generators (arithmetic, money, percent phrases, dates, durations, times, units incl. "
         "fractional conversions within and across families, a user-registered family whose conversion codes are not plain scalings, based numbers, variables over 2-3 lines) written in the default "
